@@ -107,11 +107,13 @@ def run_unit(name):
                 v = mk(ctx)
                 return [b, v], [s, v], [("sink", b, s)], {"args": [v]}
             res = L1.verify_refines(reg, fn, contract, make2, f"C17/records.writers/write_batch[{label}]", setup=setup,
-                                    models=reg.records_models, inline=_inline)
+                                    models=reg.records_models, inline=_inline,
+                                    replayer_factory=lambda info: records_replayer(fn, name, info["args"]))
             out.append(res)
     else:
         out.append(L1.verify_refines(reg, fn, contract, make, f"C17/records.writers/{name}", setup=setup,
-                                     models=reg.records_models, inline=_inline))
+                                     models=reg.records_models, inline=_inline,
+                                     replayer_factory=lambda info: records_replayer(fn, name, info["args"])))
     for r in out:
         for ob in r.obligations:
             if ob.info.get("args") is not None:
